@@ -36,6 +36,7 @@ import (
 	"testing"
 	"time"
 
+	"github.com/refraction-networking/conjure/internal/verifhook"
 	"github.com/refraction-networking/conjure/internal/vlib"
 	"github.com/refraction-networking/conjure/pkg/core"
 	"github.com/refraction-networking/conjure/pkg/station/log"
@@ -154,7 +155,9 @@ var c07Overrides = []c07Override{
 	{name: "v6=v4mapped-inside", v6: net.ParseIP("192.122.190.77").To16(), v6OK: false},
 }
 
-func (ov c07Override) present() bool { return ov.port != nil || ov.v4 != nil || ov.v6 != nil || ov.tparams != 0 }
+func (ov c07Override) present() bool {
+	return ov.port != nil || ov.v4 != nil || ov.v6 != nil || ov.tparams != 0
+}
 
 // the IPv4 override is applied only when it is present and not zero
 func (ov c07Override) v4Applied() bool { return ov.v4 != nil && *ov.v4 != 0 }
@@ -346,11 +349,27 @@ func (g c07Geo) CC(ip net.IP) (string, error) {
 
 const c07Endpoint = "http://peer.invalid/register-preshare"
 
+// every signature keeps its own quota of recorded failures: a defect that fails thousands of cells must not
+// push the failures of another defect out of the report (vlib stops recording after 600 failures in total)
+type c07Out struct {
+	*vlib.Out
+	perSig map[string]int
+}
+
+func (o *c07Out) OracleFail(sig, what, replay string) {
+	o.perSig[sig]++
+	if o.perSig[sig] > 25 {
+		o.Out.Count("oracle-failures-not-recorded:" + sig)
+		return
+	}
+	o.Out.OracleFail(sig, what, replay)
+}
+
 // ---------------------------------------------------------------------------------------------
 
 type c07World struct {
 	t    *testing.T
-	out  *vlib.Out
+	out  *c07Out
 	rec  *c07Recorder
 	live bool
 	rms  map[string]*RegistrationManager
@@ -1080,6 +1099,158 @@ func (w *c07World) oraclePass(st c07Station, c c07Cell, fams [2]c07Fam, pass, pr
 }
 
 // ---------------------------------------------------------------------------------------------
+// two ingest workers receive copies of ONE message (the decoy registrar delivers a registration through
+// several decoys) and are interleaved at the scheduling points of ingestRegistration: whatever the
+// interleaving, the client registration is probed, shared and announced as often as a single message is.
+
+type c07Sched struct {
+	cur    int
+	parked chan int
+	resume []chan struct{}
+	fin    []bool
+}
+
+func (s *c07Sched) yield(string) {
+	i := s.cur
+	s.parked <- i
+	<-s.resume[i]
+}
+
+func (w *c07World) runConcurrent(st c07Station, c c07Cell, secret []byte, schedule []int) {
+	rm := w.manager(st)
+	w.reset(rm)
+	w.live = st.live
+	var ss []string
+	for _, x := range schedule {
+		ss = append(ss, strconv.Itoa(x))
+	}
+	replay := "c07conc|" + st.String() + "/" + c.String() + "/" + hex.EncodeToString(secret) + "/" + strings.Join(ss, "")
+	raw, err := proto.Marshal(c.wrapper(secret))
+	if err != nil {
+		w.t.Fatal(err)
+	}
+	const n = 2
+	s := &c07Sched{parked: make(chan int), resume: make([]chan struct{}, n), fin: make([]bool, n)}
+	for i := range s.resume {
+		s.resume[i] = make(chan struct{})
+	}
+	var fams [2]*DecoyRegistration // one registration object per family, for the state lookup
+	var famMu sync.Mutex
+	verifhook.SetScheduler(s.yield)
+	defer verifhook.SetScheduler(nil)
+	for i := 0; i < n; i++ {
+		go func(i int) {
+			<-s.resume[i]
+			func() {
+				defer func() { _ = recover() }()
+				regs, err := rm.parseRegMessage(raw)
+				if err != nil {
+					return
+				}
+				for _, reg := range regs {
+					if reg == nil {
+						continue
+					}
+					fi := 0
+					if reg.PhantomIp.To4() == nil {
+						fi = 1
+					}
+					famMu.Lock()
+					if fams[fi] == nil {
+						fams[fi] = reg
+					}
+					famMu.Unlock()
+					rm.ingestRegistration(reg)
+				}
+			}()
+			s.fin[i] = true
+			s.parked <- i
+		}(i)
+	}
+	turn := func(i int) {
+		if s.fin[i] {
+			return
+		}
+		s.cur = i
+		s.resume[i] <- struct{}{}
+		<-s.parked
+	}
+	for _, i := range schedule {
+		turn(i)
+	}
+	for i := 0; i < n; i++ {
+		for !s.fin[i] {
+			turn(i)
+		}
+	}
+	verifhook.SetScheduler(nil)
+	wants := [2]c07Want{c07Expect(st, c, false), c07Expect(st, c, true)}
+	w.quiesce(wants[0].mayShare || wants[1].mayShare)
+	evs := w.rec.take()
+	w.out.Checked()
+	w.out.Count("concurrent-copies:runs")
+	cnt := map[byte]int{}
+	for _, e := range evs {
+		cnt[e.kind]++
+	}
+	probes, admits := 0, 0
+	for i := range wants {
+		if wants[i].probe {
+			probes++
+		}
+		if wants[i].admit {
+			admits++
+		}
+		connect := false
+		if f := fams[i]; f != nil {
+			if t, ok := rm.registeredDecoys.transports[f.Transport]; ok {
+				_, connect = rm.GetRegistrations(f.PhantomIp)[t.GetIdentifier(f)]
+			}
+		}
+		if connect != wants[i].admit {
+			sig := "C07:concurrent-copies:admissible-not-admitted"
+			if connect {
+				sig = "C07:concurrent-copies:admitted-without:" + strings.ReplaceAll(wants[i].why, " ", "-")
+			}
+			w.out.OracleFail(sig, fmt.Sprintf("two workers ingested copies of one message; the %s registration is connectable=%v, expected %v", []string{"IPv4", "IPv6"}[i], connect, wants[i].admit), replay)
+		}
+	}
+	if cnt['P'] != probes {
+		w.out.OracleFail("C07:concurrent-copies:probe-count", fmt.Sprintf("two workers ingested copies of one message: %d liveness probe(s), %d required for the client registration", cnt['P'], probes), replay)
+	}
+	maxShare := 0
+	if wants[0].mayShare || wants[1].mayShare {
+		maxShare = 1
+	}
+	if cnt['S'] > maxShare {
+		w.out.OracleFail("C07:concurrent-copies:shared-more-than-once", fmt.Sprintf("two workers ingested copies of one message: %d share request(s) for one client registration (at most %d)", cnt['S'], maxShare), replay)
+	}
+	if cnt['A'] != admits {
+		w.out.OracleFail("C07:concurrent-copies:announce-count", fmt.Sprintf("two workers ingested copies of one message: %d announcement(s), %d admissible registration(s)", cnt['A'], admits), replay)
+	}
+}
+
+// all interleavings of two workers with a and b segments
+func c07Interleavings(a, b int) [][]int {
+	var res [][]int
+	var rec func(cur []int, x, y int)
+	rec = func(cur []int, x, y int) {
+		if x == 0 && y == 0 {
+			res = append(res, append([]int(nil), cur...))
+			return
+		}
+		if x > 0 {
+			rec(append(cur, 0), x-1, y)
+		}
+		if y > 0 {
+			rec(append(cur, 1), x, y-1)
+		}
+	}
+	rec(nil, a, b)
+	return res
+}
+
+// ---------------------------------------------------------------------------------------------
 
 func c07Setup(t *testing.T, out *vlib.Out) *c07World {
 	dir := os.Getenv("VERIF_OUT")
@@ -1091,7 +1262,7 @@ func c07Setup(t *testing.T, out *vlib.Out) *c07World {
 		t.Fatal(err)
 	}
 	os.Setenv("PHANTOM_SUBNET_LOCATION", path)
-	w := &c07World{t: t, out: out, rec: &c07Recorder{}, rms: map[string]*RegistrationManager{}}
+	w := &c07World{t: t, out: &c07Out{Out: out, perSig: map[string]int{}}, rec: &c07Recorder{}, rms: map[string]*RegistrationManager{}}
 	http.DefaultTransport = c07Peer{rec: w.rec}
 	http.DefaultClient.Transport = c07Peer{rec: w.rec}
 	// create every manager and touch the package-level helpers that start goroutines lazily before
@@ -1175,6 +1346,34 @@ func TestVerifC07(t *testing.T) {
 		run(st, c07Cell{garbage: true})
 		for _, src := range []int{0, 1, 3} {
 			run(st, c07Cell{payload: false, v4s: true, v6s: true, registrant: 1, source: src, libver: 4})
+		}
+	}
+
+	// ---- two workers, copies of one message, every interleaving (IPv4-only client: 4 segments each) and
+	// sampled interleavings (dual-stack client: 8 segments each)
+	two := c07Interleavings(4, 4)
+	for _, st := range []c07Station{{e4: true, e6: true, share: true}, {e4: true, e6: true, share: true, live: true}, {e4: true, e6: true, share: true, block: 1},
+		{e4: true, e6: true, share: false}, {e4: true, e6: false, share: true}} {
+		for _, src := range []int{1, 0} {
+			for _, cv := range []int{0, 1} {
+				for _, ps := range []bool{false, true} {
+					c := c07Cell{payload: true, v4s: true, v6s: false, registrant: 1, source: src, transport: 0, gen: 0, libver: 4, covert: cv, prescanned: ps}
+					for si, sch := range two {
+						if !thorough && (cv == 1 || ps) && si%5 != 0 {
+							continue
+						}
+						w.runConcurrent(st, c, c07Secret(r), sch)
+					}
+					c.v6s = true
+					for k, nk := 0, vlib.Budget(20, 2000); k < nk; k++ {
+						var sch []int
+						for len(sch) < 16 {
+							sch = append(sch, r.Intn(2))
+						}
+						w.runConcurrent(st, c, c07Secret(r), sch)
+					}
+				}
+			}
 		}
 	}
 
@@ -1306,6 +1505,25 @@ func c07Replay(w *c07World, path string) {
 		w.t.Fatal(err)
 	}
 	for _, line := range strings.Split(string(b), "\n") {
+		if strings.HasPrefix(line, "c07conc|") {
+			p := strings.Split(strings.TrimPrefix(line, "c07conc|"), "/")
+			if len(p) != 4 {
+				w.t.Fatalf("bad replay line %q", line)
+			}
+			st, c, err := c07ParseReplay(p[0] + "/" + p[1])
+			if err != nil {
+				w.t.Fatal(err)
+			}
+			secret, _ := hex.DecodeString(p[2])
+			var sch []int
+			for _, ch := range p[3] {
+				sch = append(sch, int(ch-'0'))
+			}
+			w.runConcurrent(st, c, secret, sch)
+			fmt.Printf("REPLAY two workers ingest copies of one message, schedule %s; station: v4=%v v6=%v share=%v blocklist=%v live=%v; message: v4support=%v v6support=%v source=%s prescanned=%v covert=%q\n",
+				p[3], st.e4, st.e6, st.share, c07Blocklists[st.block], st.live, c.v4s, c.v6s, c07Sources[c.source], c.prescanned, c07Coverts[c.covert].addr)
+			continue
+		}
 		if !strings.HasPrefix(line, "c07cell|") {
 			continue
 		}
